@@ -5,6 +5,7 @@ import (
 	"go/constant"
 	"go/token"
 	"go/types"
+	"sort"
 	"strings"
 
 	"golang.org/x/tools/go/ssa"
@@ -244,11 +245,40 @@ func (x *c09Ctx) nonNegTerm(t *eng.Term, in *ssa.Function) bool {
 }
 
 func (x *c09Ctx) nonNeg(v ssa.Value, in *ssa.Function) (bool, string) {
-	b := eng.NewBounder()
-	f := b.Facts(v)
+	return x.nonNegAt(v, nil, in, eng.LiftDepth)
+}
+
+// nonNegAt: v (a value of function in) is ≥ 0 — at instruction at, when given: the bounds are
+// then refined by the branch conditions under which at executes. The bounds see through the
+// numeric helpers in calls (clamps, max/min written as functions with several returns). The
+// result of a helper that merely selects among values (`if a < b { return b }; return a`) is
+// ≥ 0 when the value yielded by every return statement of the helper is, judged in the helper
+// with the conditions guarding that return.
+func (x *c09Ctx) nonNegAt(v ssa.Value, at ssa.Instruction, in *ssa.Function, depth int) (bool, string) {
+	b := eng.NewBounderIn(in)
+	var f eng.BoundFacts
+	if at != nil {
+		f = b.FactsAt(v, at)
+	} else {
+		f = b.Facts(v)
+	}
 	for _, l := range f.L {
 		if x.nonNegTerm(l, in) {
 			return true, ""
+		}
+	}
+	if depth > 0 {
+		if alts := eng.ResultAlts(convOf(v)); len(alts) > 0 {
+			all := true
+			for _, alt := range alts {
+				if good, _ := x.nonNegAt(alt.Val, alt.Ret, alt.Callee, depth-1); !good {
+					all = false
+					break
+				}
+			}
+			if all {
+				return true, ""
+			}
 		}
 	}
 	return false, f.String()
@@ -258,7 +288,7 @@ func c09(c *eng.Ctx) {
 	defer c09Extra(c)
 	c.Rule("R1", "fallback: upstreamLimiter.Load hands out the remote limiter only when the limiter type is remote, the schema's strategy is global, the client set exists and is ready, and the remote limiter is synced; pinning any one of these the other way forces the local limiter", 6)
 	c.Rule("R2", "sign-safe conversions: every signed/float→unsigned conversion in pkg/flowcontrols has an operand proven ≥ 0 (branch-refined bounds; validated configuration; the reserve invariant; unsigned sources; limits read from sanitized server items)", 15)
-	c.Rule("R2s", "server quotas are sanitized at entry: in remoteWrapper.Sync the answered item passes through a sanitizer whose result replaces it before any other use; the sanitizer clamps every numeric member into [0, the schema's configured global limit]; functions taking limit items are called only with sanitized items", 7)
+	c.Rule("R2s", "server quotas are sanitized at entry: in remoteWrapper.Sync the answered item passes through a sanitizer whose result replaces it before any other use; the sanitizer clamps every numeric member into [0, the schema's configured global limit]; functions taking limit items are called only with sanitized items", 5)
 	c.Rule("R2i", "reserve invariant: every function storing maxInflightWrapper.reserve / tokenBucketWrapper.reserve leaves it ≥ its never-reassigned package floor", 2)
 	c.Rule("R4", "a Resize of a global wrapper records the requested size (and the reserve derived from it) on every path, also while the server is unavailable, so that recovery restores the current configuration", 5)
 	c.Rule("R3", "global-count replies are clamped: every limiter size or acquired limit derived from an AcquireResult is ≥ 0 and ≤ the wrapper's max, itself stored only from sanitized/unsigned sizes; on the error branch the size is at least the local limit", 5)
@@ -485,7 +515,21 @@ func (x *c09Ctx) reserveInvariant() {
 // the guard (then fine), or st is the unconditional store and every path from it to an exit
 // on which f < Floor passes the floor store.
 func (x *c09Ctx) floorStore(st *ssa.Store, tn string, fn *ssa.Function) (bool, string) {
-	isFloorVal := func(v ssa.Value) bool {
+	var isFloorAt func(v ssa.Value, depth int) bool
+	isFloorAt = func(v ssa.Value, depth int) bool {
+		// the floor handed to a parameterised helper: a floor at every call site of the helper
+		if p, isP := v.(*ssa.Parameter); isP && depth > 0 {
+			ups := x.c.W.UpArgSites(p)
+			if len(ups) == 0 {
+				return false
+			}
+			for _, u := range ups {
+				if !isFloorAt(convOf(u.Arg), depth-1) {
+					return false
+				}
+			}
+			return true
+		}
 		u, ok := v.(*ssa.UnOp)
 		if !ok || u.Op != token.MUL {
 			return false
@@ -493,7 +537,15 @@ func (x *c09Ctx) floorStore(st *ssa.Store, tn string, fn *ssa.Function) (bool, s
 		g, ok := u.X.(*ssa.Global)
 		return ok && x.trustedGlobal(g) && x.globalAtLeast(g, 1)
 	}
+	isFloorVal := func(v ssa.Value) bool { return isFloorAt(v, eng.LiftDepth) }
 	if isFloorVal(st.Val) {
+		return true, ""
+	}
+	// the value stored is itself bounded below by the floor: `reserve = max(x, Floor)` written as
+	// a phi, or computed by a helper every return of which yields a value ≥ Floor
+	if ok, _ := x.bounded(st.Val, st, fn, func(f eng.BoundFacts, _ ssa.Value, _ ssa.Instruction, _ *ssa.Function) bool {
+		return f.HasL(func(t *eng.Term) bool { return t.K == eng.TVal && isFloorVal(t.V) })
+	}, eng.LiftDepth); ok {
 		return true, ""
 	}
 	// unconditional store: the very next reads compare with the floor and repair
@@ -544,8 +596,14 @@ func (x *c09Ctx) globalAtLeast(g *ssa.Global, n int64) bool {
 
 func (x *c09Ctx) sanitizer() {
 	c := x.c
-	sync := c.MustMethod(pkgFCRemote, "remoteWrapper", "Sync")
-	if sync == nil {
+	// the entry point of server answers: Sync of the type implementing RemoteFlowControlWrapper
+	var sync *ssa.Function
+	for _, m := range wrapperSyncAnchors(c, "RemoteFlowControlWrapper") {
+		if sync == nil || eng.FuncName(m) == "(*pkg/flowcontrols/remote.remoteWrapper).Sync" {
+			sync = m
+		}
+	}
+	if sync == nil || len(sync.Params) != 2 {
 		return
 	}
 	item := sync.Params[1]
@@ -584,6 +642,39 @@ func (x *c09Ctx) sanitizer() {
 			if st, ok := r.(*ssa.Store); ok && cell != nil && st.Addr == ssa.Value(cell) && st.Val == ssa.Value(call) {
 				sanCall, sanStore = call, st
 			}
+		}
+	}
+	if sanCall == nil && cell == nil {
+		// the item does not live in a cell (no function literal captures it): `item = san(item)`
+		// is then a plain SSA value, and the raw parameter must have no other use at all
+		for _, ci := range eng.Calls(sync) {
+			call, ok := ci.(*ssa.Call)
+			if !ok || eng.TypeName(call.Type()) != tLimitItem {
+				continue
+			}
+			for _, a := range eng.Args(call) {
+				if a == ssa.Value(item) && sanCall == nil {
+					sanCall = call
+				}
+			}
+		}
+		if sanCall != nil {
+			ok, detail := true, ""
+			if item.Referrers() != nil {
+				for _, r := range *item.Referrers() {
+					if _, isDbg := r.(*ssa.DebugRef); isDbg || r == ssa.Instruction(sanCall) {
+						continue
+					}
+					ok, detail = false, "the raw item is used besides being handed to the sanitizer"
+				}
+			}
+			c.Check("R2s", sync, "answered item sanitized before use", sanCall.Pos(), ok, detail)
+			san := sanCall.Call.StaticCallee()
+			if ok && san != nil && x.certify(san) {
+				x.sanitized[sync] = true
+			}
+			x.limitItemTakers(sync, san, sanCall, nil, nil)
+			return
 		}
 	}
 	if sanCall == nil {
@@ -628,29 +719,39 @@ func (x *c09Ctx) sanitizer() {
 	if ok && certified {
 		x.sanitized[sync] = true
 	}
-	// (3) who may call the functions that take limit items
-	takers := []struct{ typ, name string }{{"remoteWrapper", "newFlowControl"}, {"", "toFlowControlSchema"}, {"", "newFlowControlCounter"}}
-	allowed := map[string]map[string]bool{
-		"newFlowControl":        {"(*pkg/flowcontrols/remote.remoteWrapper).Sync": true},
-		"toFlowControlSchema":   {"(*pkg/flowcontrols/remote.remoteWrapper).newFlowControl": true},
-		"newFlowControlCounter": {"(*pkg/flowcontrols/remote.remoteWrapper).newFlowControl": true},
-	}
-	for _, t := range takers {
-		var fn *ssa.Function
-		if t.typ != "" {
-			fn = c.MustMethod(pkgFCRemote, t.typ, t.name)
-		} else {
-			fn = c.MustFunc(pkgFCRemote, t.name)
-		}
-		if fn == nil {
+	x.limitItemTakers(sync, san, sanCall, cell, isSan)
+}
+
+// limitItemTakers implements part (3) of R2s.
+func (x *c09Ctx) limitItemTakers(sync, san *ssa.Function, sanCall *ssa.Call, cell *ssa.Alloc, isSan func(ssa.Instruction) bool) {
+	c := x.c
+	// (3) who may call the functions that take limit items. The takers are found by their role —
+	// every function of the package with a parameter of the limit-item type, except the entry
+	// point Sync (which receives the raw answer) and the sanitizer — so renaming one, turning a
+	// method into a function or extracting another helper that receives the item keeps the rule.
+	// A taker may be called only by Sync, with its sanitized item, or by another taker handing
+	// on its own parameter.
+	var takers []*ssa.Function
+	isTaker := map[*ssa.Function]bool{}
+	for _, fn := range c.W.FuncsOf(pkgFCRemote) {
+		if fn.Parent() != nil || fn == sync || fn == san || fn.Synthetic != "" {
 			continue
 		}
+		for _, p := range fn.Params {
+			if eng.TypeName(p.Type()) == tLimitItem && !isTaker[fn] {
+				isTaker[fn] = true
+				takers = append(takers, fn)
+			}
+		}
+	}
+	sort.Slice(takers, func(a, b int) bool { return eng.FuncName(takers[a]) < eng.FuncName(takers[b]) })
+	for _, fn := range takers {
 		good := true
 		n := 0
 		for _, caller := range c.W.AllRepoFuncs() {
 			for _, ci := range eng.CallsToFn(caller, fn) {
 				n++
-				if !allowed[t.name][eng.FuncName(caller)] {
+				if caller != sync && !isTaker[caller] {
 					good = false
 				}
 				// the item argument is the caller's own (sanitized) item
@@ -674,10 +775,14 @@ func (x *c09Ctx) sanitizer() {
 							}
 						}
 					}
-					for _, p := range caller.Params {
-						if a == ssa.Value(p) {
-							src = true
+					if caller != sync {
+						for _, p := range caller.Params {
+							if a == ssa.Value(p) {
+								src = true
+							}
 						}
+					} else if a == ssa.Value(sanCall) {
+						src = true // the sanitizer's result handed on directly
 					}
 					if !src {
 						good = false
@@ -685,7 +790,7 @@ func (x *c09Ctx) sanitizer() {
 				}
 			}
 		}
-		c.Check("R2s", fn, "limit-item taker "+t.name+" called only with sanitized items", fn.Pos(), good && n > 0, "a new caller could pass an unsanitized server item")
+		c.Check("R2s", fn, "limit-item taker "+fn.Name()+" called only with sanitized items", fn.Pos(), good && n > 0, "a new caller could pass an unsanitized server item")
 		if good && n > 0 && x.sanitized[sync] {
 			x.sanitized[fn] = true
 		}
@@ -740,15 +845,17 @@ func (x *c09Ctx) certify(san *ssa.Function) bool {
 		{pkgV1alpha1 + ".TokenBucketFlowControlSchema", "QPS", "GlobalTokenBucket", "QPS"},
 		{pkgV1alpha1 + ".TokenBucketFlowControlSchema", "Burst", "GlobalTokenBucket", "Burst"},
 	}
+	// the clamping stores may sit in san or in the helpers its body was spread over
+	region := c.W.Region(san)
 	for _, m := range members {
-		stores := eng.StoresToField([]*ssa.Function{san}, m.typ, m.field)
+		stores := eng.StoresToField(region, m.typ, m.field)
 		ok := len(stores) > 0
 		detail := ""
 		if !ok {
 			detail = "member is not overwritten by the sanitizer"
 		}
 		for _, st := range stores {
-			b := eng.NewBounder()
+			b := eng.NewBounderIn(st.Parent())
 			f := b.Facts(st.Val)
 			lo := f.HasL(func(t *eng.Term) bool { return t.K == eng.TConst && t.C >= 0 })
 			hi := f.HasU(func(t *eng.Term) bool { return x.capTerm(t, m.global, m.gfield) })
@@ -759,7 +866,11 @@ func (x *c09Ctx) certify(san *ssa.Function) bool {
 				ok, detail = false, "no upper clamp at the schema's configured "+m.global+"."+m.gfield+": "+f.String()
 			}
 			// guards: only nil tests of item members
-			for _, g := range eng.GuardsOf(st) {
+			gs, complete := c.W.GuardsUp(st, san)
+			if !complete {
+				ok, detail = false, "the conditions under which the clamp runs cannot be enumerated (helper with several callers)"
+			}
+			for _, g := range gs {
 				r := g.Rel()
 				if !(eng.IsNilConst(r.Y) || eng.IsNilConst(r.X)) {
 					ok, detail = false, "the clamp is conditional on something else than the member being set"
@@ -781,6 +892,8 @@ func (x *c09Ctx) capTerm(t *eng.Term, global, field string) bool {
 		return t.C == 0
 	case eng.TMax:
 		return x.capTerm(t.A, global, field) && x.capTerm(t.B, global, field)
+	case eng.TMin:
+		return x.capTerm(t.A, global, field) || x.capTerm(t.B, global, field)
 	case eng.TVal:
 		return x.capValue(t.V, global, field, map[ssa.Value]bool{})
 	}
@@ -803,6 +916,16 @@ func (x *c09Ctx) capValue(v ssa.Value, global, field string, seen map[ssa.Value]
 	}
 	if k, ok := eng.IntConst(v); ok {
 		return k == 0
+	}
+	// "the global limit or zero" computed by a helper returning the value: every return of the
+	// helper must yield the configured global limit or 0
+	if alts := eng.ResultAlts(v); len(alts) > 0 && len(seen) < 16 {
+		for _, alt := range alts {
+			if !x.capValue(alt.Val, global, field, seen) {
+				return false
+			}
+		}
+		return true
 	}
 	if c09LeafField(v) == field && pathHas(v, global) && c09HasType(c09PathTypes(v), pkgV1alpha1+".FlowControlSchema", pkgV1alpha1+".FlowControlSchemaConfiguration") {
 		return true
@@ -846,6 +969,47 @@ func (x *c09Ctx) conversions() {
 	}
 }
 
+// c09BoundPred judges the bounds f of value v at instruction at of function fn.
+type c09BoundPred func(f eng.BoundFacts, v ssa.Value, at ssa.Instruction, fn *ssa.Function) bool
+
+// bounded: bounds of a value, robust to where the value is computed: the facts at the
+// instruction (refined by the branch conditions there, seeing through numeric helpers); the
+// result of a helper that selects / clamps with early returns is bounded when the value of
+// every return statement is (judged in the helper, with the conditions guarding that return);
+// a parameter of a helper the use was moved into is bounded when the argument is at every call
+// site of the helper.
+func (x *c09Ctx) bounded(v ssa.Value, at ssa.Instruction, fn *ssa.Function, pred c09BoundPred, depth int) (bool, string) {
+	v = convOf(v)
+	f := eng.NewBounderIn(fn).FactsAt(v, at)
+	if pred(f, v, at, fn) {
+		return true, f.String()
+	}
+	if depth <= 0 {
+		return false, f.String()
+	}
+	if alts := eng.ResultAlts(v); len(alts) > 0 {
+		for _, alt := range alts {
+			if ok, _ := x.bounded(alt.Val, alt.Ret, alt.Callee, pred, depth-1); !ok {
+				return false, f.String()
+			}
+		}
+		return true, f.String()
+	}
+	if p, isP := v.(*ssa.Parameter); isP {
+		ups := x.c.W.UpArgSites(p)
+		if len(ups) == 0 {
+			return false, f.String()
+		}
+		for _, u := range ups {
+			if ok, _ := x.bounded(u.Arg, u.Site, u.Site.Parent(), pred, depth-1); !ok {
+				return false, f.String()
+			}
+		}
+		return true, f.String()
+	}
+	return false, f.String()
+}
+
 // ---- R3 -------------------------------------------------------------------------------
 
 func (x *c09Ctx) setLimit() {
@@ -871,37 +1035,60 @@ func (x *c09Ctx) setLimit() {
 		}
 		return false
 	}
+	bounded := x.bounded
+	fromServerUp := func(v ssa.Value) bool {
+		return c.Slicer().WithUp().DerivesFrom(v, func(y ssa.Value) bool {
+			return eng.FieldLoadOf(y, tAcquireResult, "Limit")
+		})
+	}
 	n := 0
+	kinds := map[string]bool{}
 	check := func(at ssa.Instruction, v ssa.Value, what string) {
 		v = convOf(v)
 		n++
-		b := eng.NewBounder()
-		f := b.Facts(v)
-		if fromServer(v) {
-			lo, _ := x.nonNeg(v, sl)
-			hi := f.HasU(isMax)
+		fn := at.Parent()
+		if fromServer(v) || fromServerUp(v) {
+			kinds[what+" from the reply"] = true
+			lo, _ := bounded(v, at, fn, func(_ eng.BoundFacts, w ssa.Value, a ssa.Instruction, g *ssa.Function) bool {
+				good, _ := x.nonNegAt(w, a, g, 0)
+				return good
+			}, eng.LiftDepth)
+			hi, facts := bounded(v, at, fn, func(f eng.BoundFacts, _ ssa.Value, _ ssa.Instruction, _ *ssa.Function) bool { return f.HasU(isMax) }, eng.LiftDepth)
 			c.Check("R3", sl, fmt.Sprintf("%s#%d from the reply ∈ [0, max]", what, n), at.Pos(), lo && hi,
-				"a limit answered by the limiter server is applied without being clamped into [0, configured global max]: "+f.String())
+				"a limit answered by the limiter server is applied without being clamped into [0, configured global max]: "+facts)
 		} else {
 			// error branch: at least the local limit
-			lo := f.HasL(func(t *eng.Term) bool {
-				return t.K == eng.TVal && c09LeafField(t.V) == "Max" && pathHas(t.V, "MaxRequestsInflight") && !pathHas(t.V, "GlobalMaxRequestsInflight") &&
-					c09HasType(c09PathTypes(t.V), pkgV1alpha1+".FlowControlSchema", pkgV1alpha1+".FlowControlSchemaConfiguration")
-			})
+			kinds[what+" on server failure"] = true
+			lo, facts := bounded(v, at, fn, func(f eng.BoundFacts, _ ssa.Value, _ ssa.Instruction, _ *ssa.Function) bool {
+				return f.HasL(func(t *eng.Term) bool {
+					return t.K == eng.TVal && c09LeafField(t.V) == "Max" && pathHas(t.V, "MaxRequestsInflight") && !pathHas(t.V, "GlobalMaxRequestsInflight") &&
+						c09HasType(c09PathTypes(t.V), pkgV1alpha1+".FlowControlSchema", pkgV1alpha1+".FlowControlSchemaConfiguration")
+				})
+			}, eng.LiftDepth)
 			c.Check("R3", sl, fmt.Sprintf("%s#%d on server failure ≥ local limit", what, n), at.Pos(), lo,
-				"while the server is failing the limiter must be sized from the locally configured limit (or the observed in-flight level if higher): "+f.String())
+				"while the server is failing the limiter must be sized from the locally configured limit (or the observed in-flight level if higher): "+facts)
 		}
 	}
-	for _, ci := range eng.Calls(sl) {
-		if iface != nil && isFCCall(ci, iface, "Resize") {
-			check(ci, eng.Args(ci)[0], "Resize")
+	// the sinks may sit in SetLimit or in the helpers its body was spread over
+	for _, fn := range c.W.Region(sl) {
+		if fn != sl && !c.W.OwnedBy(fn, sl) {
+			continue
 		}
-		if eng.IsCall(ci, "sync/atomic.StoreInt32") && eng.FieldAddrOf(eng.Args(ci)[0], tMaxInflightW, "acquiredMaxInflight") {
-			check(ci, eng.Args(ci)[1], "acquired limit")
+		for _, ci := range eng.Calls(fn) {
+			if iface != nil && isFCCall(ci, iface, "Resize") {
+				check(ci, eng.Args(ci)[0], "Resize")
+			}
+			if eng.IsCall(ci, "sync/atomic.StoreInt32") && eng.FieldAddrOf(eng.Args(ci)[0], tMaxInflightW, "acquiredMaxInflight") {
+				check(ci, eng.Args(ci)[1], "acquired limit")
+			}
 		}
 	}
-	if n < 4 {
-		c.Fail("R3", sl, "limit sinks in SetLimit", sl.Pos(), fmt.Sprintf("expected Resize/acquired-limit sinks on the accept, refuse and error branches, found %d", n))
+	// no vacuous pass: each kind of sink must exist, however many sites the branches were merged
+	// into (accept and refuse may share one store + Resize fed by a helper returning the limit)
+	for _, k := range []string{"Resize from the reply", "acquired limit from the reply", "Resize on server failure"} {
+		if !kinds[k] {
+			c.Fail("R3", sl, "limit sinks in SetLimit", sl.Pos(), fmt.Sprintf("no sink of kind %q found in SetLimit (%d sinks in all): expected the limiter to be resized and the grant recorded from the reply, and the limiter resized on server failure", k, n))
+		}
 	}
 	// max is stored only from unsigned sizes or sanitized items
 	for i, st := range eng.StoresToField(c.W.FuncsOf(pkgFCRemote), tMaxInflightW, "max") {
